@@ -10,6 +10,6 @@ mkdir -p "$D/out"
 ( cd "$D/repo" && git init -q . 2>/dev/null && git apply --whitespace=nowarn "$PATCH" ) || { echo "PATCH DOES NOT APPLY"; rm -rf "$D"; exit 3; }
 for P in "$@"; do
   echo "== $P"
-  /verif/bin/omnilint -prop "$P" -repo "$D/repo" -verif /verif -out "$D/out" | grep -v "^KNOWN-FINDING" | sed "s#$D/repo/##g" | head -${TRY_LINES:-12}
+  ${VERIF_ROOT:-/verif}/bin/omnilint -prop "$P" -repo "$D/repo" -verif ${VERIF_ROOT:-/verif} -out "$D/out" | grep -v "^KNOWN-FINDING" | sed "s#$D/repo/##g" | head -${TRY_LINES:-12}
 done
 rm -rf "$D"
